@@ -34,9 +34,9 @@ def place_demo(wt, demo_src, ident):
         name = os.path.basename(rel)[:-3]
         with open(host, "a") as f:
             f.write('\n#[cfg(test)]\n#[path = "%s"]\nmod %s;\n' % (os.path.basename(rel), name))
-        test_cmd = "cargo test --offline --lib %s" % name
+        test_cmd = "cargo test --offline --lib %s -- --test-threads=1" % name
     else:
-        test_cmd = "cargo test --offline --test %s" % os.path.basename(rel)[:-3]
+        test_cmd = "cargo test --offline --test %s -- --test-threads=1" % os.path.basename(rel)[:-3]
     return rel, test_cmd
 
 
